@@ -1,6 +1,7 @@
 use crate::driver::*;
 
 pub mod c01;
+pub mod c02;
 pub mod c03;
 pub mod c04;
 pub mod c05;
@@ -17,6 +18,9 @@ pub mod c14;
 pub mod c15;
 pub mod c16;
 pub mod c17;
+pub mod c18;
+pub mod c19;
+pub mod c20;
 pub mod fmt;
 pub mod nav;
 
@@ -34,6 +38,7 @@ pub fn dispatch(ctx: &Ctx, replay_file: Option<&str>) -> i32 {
     }
     match ctx.id.as_str() {
         "C01" => prop!(c01),
+        "C02" => prop!(c02),
         "C03" => prop!(c03),
         "C04" => prop!(c04),
         "C05" => prop!(c05),
@@ -49,6 +54,9 @@ pub fn dispatch(ctx: &Ctx, replay_file: Option<&str>) -> i32 {
         "C15" => prop!(c15),
         "C16" => prop!(c16),
         "C17" => prop!(c17),
+        "C18" => prop!(c18),
+        "C19" => prop!(c19),
+        "C20" => prop!(c20),
         other => {
             eprintln!("no check for property {}", other);
             2
